@@ -60,6 +60,13 @@ Proof.
   cbn [flat_map length]. rewrite app_length, IH. unfold enc_xti. rewrite !app_length, !le_length. lia.
 Qed.
 
+Lemma nthN_map : forall (A B : Type) (f : A -> B) (l : list A) i,
+  nthN (map f l) i = match nthN l i with Some x => Some (f x) | None => None end.
+Proof.
+  induction l as [|x l IH]; intros i; [reflexivity|]. cbn [map nthN].
+  destruct (i =? 0); [reflexivity|apply IH].
+Qed.
+
 Section XlsbProofs.
 Variable show_f64 : N -> list N.
 Variable sheets : list (list N).
@@ -74,13 +81,13 @@ Proof.
   - destruct fuel as [|f]; [lia|]. cbn [forallb] in Hwf. apply andb_prop in Hwf. destruct Hwf as [Hx Ht].
     destruct x as [[a b] c]. unfold wf_xti in Hx. cbn [fst snd] in Hx.
     apply andb_prop in Hx. destruct Hx as [Hx Hc]. apply andb_prop in Hx. destruct Hx as [Ha Hb].
-    apply N.ltb_lt in Hb.
+    apply N.ltb_lt in Hb, Hc.
     cbn [flat_map length]. change (enc_xti (a, b, c)) with (le 4 a ++ le 4 b ++ le 4 c). cbn [le app].
     cbn [extern_chunks]. destruct (N.of_nat (S (length t)) =? 0) eqn:E; [apply N.eqb_eq in E; lia|].
     match goal with |- context [(length ?l <? 12)%nat] =>
       destruct (length l <? 12)%nat eqn:EL; [apply Nat.ltb_lt in EL; cbn [length] in EL; lia|] end.
     cbn [firstn skipn u32_at obind].
-    rewrite le4_eq by exact Hb. cbn [obind].
+    rewrite le4_eq by exact Hb. cbn [obind]. rewrite le4_eq by exact Hc. cbn [obind].
     replace (N.of_nat (S (length t)) - 1) with (N.of_nat (length t)) by lia.
     rewrite IH by (try exact Ht; cbn [length] in Hf; lia).
     reflexivity.
@@ -101,10 +108,8 @@ Proof.
 Qed.
 
 Lemma brt_name_enc : forall st d, wf_name_rec d = true ->
-  brt_name show_f64 st (enc_brtname d) =
-  do f <- xlsb_parse_formula show_f64
-            {| be_sheets := ws_ext st; be_names := map fst (ws_names st); be_base := None |} (nr_rgce d);
-  Ok {| ws_ext := ws_ext st; ws_names := ws_names st ++ [(nr_name d, f)] |}.
+  brt_name st (enc_brtname d) =
+  Ok {| ws_ext := ws_ext st; ws_names := ws_names st ++ [(nr_name d, nr_rgce d)] |}.
 Proof.
   intros st d Hwf. unfold wf_name_rec in Hwf.
   repeat (apply andb_prop in Hwf; let H := fresh "H" in destruct Hwf as [Hwf H]).
@@ -163,15 +168,14 @@ Theorem xlsb_names_of_records : forall ds e p st,
   = do r <- spec_names_xlsb show_f64 (ws_ext st) (ws_names st) ds; Ok (ws_ext st, r).
 Proof.
   induction ds as [|d t IH]; intros e p st Hwf He.
-  - destruct (end_rec_not_name e He) as [E1 E2]. cbn [map app xlsb_names_loop spec_names_xlsb obind].
-    rewrite E1, E2, He. reflexivity.
+  - destruct (end_rec_not_name e He) as [E1 E2]. cbn [map app xlsb_names_loop].
+    rewrite E1, E2, He. unfold spec_names_xlsb, raw_of. cbn [map]. rewrite app_nil_r. reflexivity.
   - cbn [forallb] in Hwf. apply andb_prop in Hwf. destruct Hwf as [Hd Ht].
-    cbn [map app xlsb_names_loop spec_names_xlsb].
+    cbn [map app xlsb_names_loop].
     change (0x0027 =? 0x016A) with false. change (0x0027 =? 0x0027) with true. cbn iota.
-    rewrite brt_name_enc by exact Hd.
-    destruct (xlsb_parse_formula show_f64 {| be_sheets := ws_ext st; be_names := map fst (ws_names st); be_base := None |} (nr_rgce d))
-      as [f|c| |]; cbn [obind]; try reflexivity.
-    rewrite IH by assumption. reflexivity.
+    rewrite brt_name_enc by exact Hd. cbn [obind].
+    rewrite IH by assumption. cbn [ws_ext ws_names]. unfold spec_names_xlsb, raw_of. cbn [map].
+    rewrite <- !app_assoc. reflexivity.
 Qed.
 
 Theorem xlsb_read_names_spec : forall xtis ds e p,
@@ -189,20 +193,27 @@ Proof.
 Qed.
 
 (* ---------- what the table looks like ---------- *)
-Lemma spec_names_fst : forall ds ext acc r,
-  spec_names_xlsb show_f64 ext acc ds = Ok r -> map fst r = map fst acc ++ map nr_name ds.
+Lemma decode_names_fst : forall ext all l r,
+  decode_names show_f64 ext all l = Ok r -> map fst r = map fst l.
 Proof.
-  induction ds as [|d t IH]; intros ext acc r H.
-  - cbn in H. injection H as <-. symmetry. apply app_nil_r.
-  - cbn [spec_names_xlsb] in H.
-    destruct (xlsb_parse_formula show_f64 {| be_sheets := ext; be_names := map fst acc; be_base := None |} (nr_rgce d))
+  induction l as [|[n rg] l IH]; intros r H.
+  - cbn in H. injection H as <-. reflexivity.
+  - cbn [decode_names] in H.
+    destruct (xlsb_parse_formula show_f64 {| be_sheets := ext; be_names := all; be_base := None |} rg)
       as [f|c| |]; cbn [obind] in H; try discriminate.
-    apply IH in H. rewrite H, map_app. cbn [map fst]. rewrite <- app_assoc. reflexivity.
+    destruct (decode_names show_f64 ext all l) as [r'|c| |]; cbn [obind] in H; try discriminate.
+    injection H as <-. cbn [map fst]. rewrite (IH r' eq_refl). reflexivity.
 Qed.
+
+Lemma raw_of_fst : forall ds, map fst (raw_of ds) = map nr_name ds.
+Proof. intros ds. unfold raw_of. rewrite map_map. reflexivity. Qed.
 
 Theorem defined_names_in_order_xlsb : forall ext ds r,
   spec_names_xlsb show_f64 ext [] ds = Ok r -> map fst r = map nr_name ds.
-Proof. intros ext ds r H. apply spec_names_fst in H. exact H. Qed.
+Proof.
+  intros ext ds r H. unfold spec_names_xlsb in H. cbn [app] in H. apply decode_names_fst in H.
+  rewrite H. apply raw_of_fst.
+Qed.
 
 Theorem name_index_stable_xlsb : forall ext ds r i d,
   spec_names_xlsb show_f64 ext [] ds = Ok r -> nth_error ds i = Some d ->
@@ -223,21 +234,124 @@ Proof.
   intros ext ds r i d k H Hn Hi.
   rewrite rpn_correct_xlsb.
   - unfold render_xlsb. cbn [render be_names]. f_equal. eapply name_index_stable_xlsb; eassumption.
-  - unfold wf_xlsb. cbn [wf be_names].
+  - unfold wf_xlsb, wf_xlsb_core. cbn [wf be_names mdepth].
     pose proof (defined_names_in_order_xlsb _ _ H) as Hm.
     assert (Hlen : length (map fst r) = length ds) by (rewrite Hm, map_length; reflexivity).
     assert (Hlt : (i < length ds)%nat) by (apply nth_error_Some; rewrite Hn; discriminate).
     rewrite Hlen.
-    repeat (apply andb_true_intro; split); try apply N.leb_le; try apply N.ltb_lt; lia.
+    repeat (apply andb_true_intro; split); try reflexivity; try apply N.leb_le; try apply N.ltb_lt; lia.
+Qed.
+
+(* the text of a defined name: every BrtName record whose rgce encodes a well-formed expression —
+   well-formed against the names of ALL records, those stored after it included (forward references
+   are the rule in files written by Excel) — is reported with the A1 rendering of that expression *)
+Lemma decode_names_nth : forall ext all l r i n rg,
+  decode_names show_f64 ext all l = Ok r -> nth_error l i = Some (n, rg) ->
+  exists f, xlsb_parse_formula show_f64 {| be_sheets := ext; be_names := all; be_base := None |} rg = Ok f /\
+            nth_error r i = Some (n, f).
+Proof.
+  induction l as [|[n0 rg0] l IH]; intros r i n rg H Hn; [destruct i; discriminate|].
+  cbn [decode_names] in H.
+  destruct (xlsb_parse_formula show_f64 {| be_sheets := ext; be_names := all; be_base := None |} rg0)
+    as [f0|c| |] eqn:E0; cbn [obind] in H; try discriminate.
+  destruct (decode_names show_f64 ext all l) as [r'|c| |] eqn:El; cbn [obind] in H; try discriminate.
+  injection H as <-. destruct i as [|i]; cbn [nth_error] in *.
+  - injection Hn as <- <-. exists f0. split; [exact E0|reflexivity].
+  - eapply IH; [reflexivity|exact Hn].
+Qed.
+
+Theorem defined_name_text_is_render_xlsb : forall ext ds r i d e,
+  spec_names_xlsb show_f64 ext [] ds = Ok r -> nth_error ds i = Some d ->
+  nr_rgce d = encode_xlsb e ->
+  wf_xlsb {| be_sheets := ext; be_names := map nr_name ds; be_base := None |} e = true ->
+  nth_error r i = Some (nr_name d, render_xlsb show_f64 {| be_sheets := ext; be_names := map nr_name ds; be_base := None |} e).
+Proof.
+  intros ext ds r i d e H Hn He Hwf. unfold spec_names_xlsb in H. cbn [app] in H.
+  rewrite raw_of_fst in H.
+  assert (Hn' : nth_error (raw_of ds) i = Some (nr_name d, nr_rgce d)).
+  { unfold raw_of. rewrite nth_error_map, Hn. reflexivity. }
+  edestruct decode_names_nth as (f & Hf & Hr); [exact H|exact Hn'|].
+  rewrite He, rpn_correct_xlsb in Hf by exact Hwf. injection Hf as <-. exact Hr.
 Qed.
 
 Theorem sheet3d_through_xti_xlsb : forall xtis i x nm,
   nth_error xtis i = Some x ->
   spec_sheet_xlsb {| be_sheets := spec_extern_xlsb sheets xtis; be_names := nm; be_base := None |} (N.of_nat i)
-  = resolve_xti sheets (snd (fst x)).
+  = resolve_xti sheets (snd (fst x)) (snd x).
 Proof.
   intros xtis i x nm H. unfold spec_sheet_xlsb, spec_extern_xlsb. cbn [be_sheets].
   rewrite nthN_nth_error, nth_error_map, H. reflexivity.
+Qed.
+
+(* ---------- supporting links ---------- *)
+(* the records of the EXTERNALS block in front of BrtExternSheet — BrtBeginExternals and the supporting
+   links, any number of them in any order — are passed over *)
+Lemma skip_rec_loop : forall pre rest st, forallb (fun r => skip_rec (fst r)) pre = true ->
+  xlsb_names_loop show_f64 sheets (pre ++ rest) st = xlsb_names_loop show_f64 sheets rest st.
+Proof.
+  induction pre as [|[t p] pre IH]; intros rest st H; [reflexivity|].
+  cbn [forallb fst] in H. apply andb_prop in H. destruct H as [Ht Hp].
+  unfold skip_rec in Ht. apply negb_true_iff in Ht. apply orb_false_iff in Ht. destruct Ht as [Ht E3].
+  apply orb_false_iff in Ht. destruct Ht as [E1 E2].
+  cbn [app xlsb_names_loop]. rewrite E1, E2, E3. apply IH. exact Hp.
+Qed.
+
+Lemma sup_rec_skipped : forall sups, forallb (fun r => skip_rec (fst r)) (map sup_rec_xlsb sups) = true.
+Proof.
+  induction sups as [|[l p] t IH]; [reflexivity|]. cbn [map forallb]. rewrite IH.
+  destruct l; reflexivity.
+Qed.
+
+Theorem xlsb_read_names_links_spec : forall bp sups xtis ds e p,
+  forallb wf_xti xtis = true -> N.of_nat (length xtis) < 4294967296 ->
+  forallb wf_name_rec ds = true -> is_end_rec e = true ->
+  xlsb_read_names show_f64 sheets
+    ((0x0161, bp) :: map sup_rec_xlsb sups ++
+     (0x016A, enc_externsheet xtis) :: map (fun d => (0x0027, enc_brtname d)) ds ++ [(e, p)])
+  = do r <- spec_names_xlsb show_f64 (spec_extern_xlsb sheets xtis) [] ds;
+    Ok (spec_extern_xlsb sheets xtis, r).
+Proof.
+  intros bp sups xtis ds e p Hx Hl Hd He.
+  rewrite <- (xlsb_read_names_spec xtis ds e p Hx Hl Hd He). unfold xlsb_read_names.
+  rewrite app_comm_cons. apply skip_rec_loop.
+  cbn [forallb fst]. rewrite sup_rec_skipped. reflexivity.
+Qed.
+
+(* outside the known class the table through the links gives the text the decoder writes *)
+Lemma render_xlsb_links_eq : forall links xtis nm base e,
+  known_extern links xtis e = false ->
+  render_xlsb show_f64 {| be_sheets := spec_extern_links_xlsb sheets links xtis; be_names := nm; be_base := base |} e
+  = render_xlsb show_f64 {| be_sheets := spec_extern_xlsb sheets xtis; be_names := nm; be_base := base |} e.
+Proof.
+  intros links xtis nm base e Hk. unfold render_xlsb. cbn [be_names be_base]. apply render_sheet_ext.
+  intros ix Hin. unfold spec_sheet_xlsb, spec_extern_links_xlsb, spec_extern_xlsb. cbn [be_sheets].
+  rewrite !nthN_map. destruct (nthN xtis ix) as [x|] eqn:Ex; [|reflexivity].
+  rewrite sheet_through_link_local; [reflexivity|]. eapply known_extern_false; eauto.
+Qed.
+
+Theorem rpn_correct_links_xlsb : forall links xtis nm base e,
+  wf_xlsb {| be_sheets := spec_extern_xlsb sheets xtis; be_names := nm; be_base := base |} e = true ->
+  known_C14 links xtis e = None ->
+  xlsb_parse_formula show_f64 {| be_sheets := spec_extern_xlsb sheets xtis; be_names := nm; be_base := base |}
+    (encode_xlsb e)
+  = Ok (render_xlsb show_f64 {| be_sheets := spec_extern_links_xlsb sheets links xtis; be_names := nm; be_base := base |} e).
+Proof.
+  intros links xtis nm base e Hwf Hk. unfold known_C14 in Hk.
+  destruct (known_extern links xtis e) eqn:E; [discriminate|].
+  rewrite render_xlsb_links_eq by exact E. apply rpn_correct_xlsb. exact Hwf.
+Qed.
+
+Theorem defined_name_text_through_links_xlsb : forall links xtis ds r i d e,
+  spec_names_xlsb show_f64 (spec_extern_xlsb sheets xtis) [] ds = Ok r -> nth_error ds i = Some d ->
+  nr_rgce d = encode_xlsb e ->
+  wf_xlsb {| be_sheets := spec_extern_xlsb sheets xtis; be_names := map nr_name ds; be_base := None |} e = true ->
+  known_C14 links xtis e = None ->
+  nth_error r i = Some (nr_name d,
+    render_xlsb show_f64 {| be_sheets := spec_extern_links_xlsb sheets links xtis; be_names := map nr_name ds; be_base := None |} e).
+Proof.
+  intros links xtis ds r i d e H Hn He Hwf Hk. unfold known_C14 in Hk.
+  destruct (known_extern links xtis e) eqn:E; [discriminate|].
+  rewrite render_xlsb_links_eq by exact E. eapply defined_name_text_is_render_xlsb; eassumption.
 Qed.
 
 End XlsbProofs.
@@ -298,24 +412,32 @@ Proof.
   set (cch := if lb_wide d then N.of_nat (length (utf16_units (lb_name d))) else N.of_nat (length (lb_name d))).
   cbn [le app].
   set (data := lb_flags d mod 256 :: _).
-  assert (Hd : data = firstn 14 data ++ str ++ lb_rgce d) by reflexivity.
-  assert (Hlen : length data = (14 + length (str ++ lb_rgce d))%nat) by reflexivity.
+  assert (Hd : data = firstn 14 data ++ str ++ lb_rgce d ++ lb_rgcb d) by reflexivity.
+  assert (Hlen : length data = (14 + length (str ++ lb_rgce d ++ lb_rgcb d))%nat) by reflexivity.
   destruct (length data <? 14)%nat eqn:E14; [apply Nat.ltb_lt in E14; lia|].
   assert (Hb : byte_at data 3 = Ok cch) by reflexivity.
   assert (Hc : u16_at data 4 = Ok (N.of_nat (length (lb_rgce d)))).
   { unfold data, u16_at. cbn [skipn]. rewrite le2_eq by exact Hce. reflexivity. }
   rewrite Hb, Hc. cbn [obind]. rewrite Nat2N.id.
   destruct (length data <? 14 + length (lb_rgce d))%nat eqn:E;
-    [apply Nat.ltb_lt in E; rewrite Hlen, app_length in E; lia|].
-  assert (Hdr : drop 14 data = Ok (str ++ lb_rgce d)) by reflexivity.
-  rewrite Hdr. cbn [obind].
-  assert (Hsk : skipn (length data - length (lb_rgce d)) data = lb_rgce d).
-  { rewrite Hd at 2. rewrite Hlen, app_length.
-    replace (14 + (length str + length (lb_rgce d)) - length (lb_rgce d))%nat
-      with (length (firstn 14 data ++ str)) by (rewrite app_length; cbn [firstn length data]; lia).
-    rewrite app_assoc. apply skipn_app_len. }
-  cbv zeta. rewrite Hsk.
-  assert (Hname : unicode_no_cch (str ++ lb_rgce d) (N.to_nat cch) = lb_name d).
+    [apply Nat.ltb_lt in E; rewrite Hlen, !app_length in E; lia|].
+  assert (Hdr : drop 14 data = Ok (str ++ lb_rgce d ++ lb_rgcb d)) by reflexivity.
+  rewrite Hdr. cbn [obind]. cbv zeta.
+  (* the length read_unicode_string_no_cch reports: the flag byte and the characters *)
+  assert (Hnl : (1 + (if match str ++ lb_rgce d ++ lb_rgcb d with b :: _ => N.testbit b 0 | [] => false end
+                      then 2 * N.to_nat cch else N.to_nat cch))%nat = length str).
+  { unfold str, cch. destruct (lb_wide d); cbn [app]; rewrite Nat2N.id.
+    - change (N.testbit 1 0) with true. cbn iota. cbn [length]. rewrite flat_le2_length. lia.
+    - change (N.testbit 0 0) with false. cbn iota. cbn [length]. lia. }
+  rewrite Hnl.
+  destruct (length data <? 14 + length str + length (lb_rgce d))%nat eqn:E2;
+    [apply Nat.ltb_lt in E2; rewrite Hlen, !app_length in E2; lia|].
+  assert (Hsk : firstn (length (lb_rgce d)) (skipn (14 + length str) data) = lb_rgce d).
+  { rewrite Hd. replace (14 + length str)%nat with (length (firstn 14 data ++ str))
+      by (rewrite app_length; cbn [firstn length data]; lia).
+    rewrite app_assoc, skipn_app_len. apply firstn_app_len. }
+  rewrite Hsk.
+  assert (Hname : unicode_no_cch (str ++ lb_rgce d ++ lb_rgcb d) (N.to_nat cch) = lb_name d).
   { unfold str, cch. destruct (lb_wide d); apply andb_prop in Hnm; destruct Hnm as [Hs _]; rewrite Nat2N.id.
     - apply unicode_no_cch_wide. exact Hs.
     - apply unicode_no_cch_narrow. exact Hs. }
@@ -349,42 +471,90 @@ Proof.
     reflexivity.
 Qed.
 
-Lemma xls_externsheet_enc : forall xtis, forallb wf_xti16 xtis = true ->
-  N.of_nat (length xtis) < 65536 -> xls_externsheet (enc_externsheet16 xtis) = Ok xtis.
+Lemma concat_pieces : forall cuts b, concat (pieces cuts b) = b.
 Proof.
-  intros xtis Hwf Hl. unfold xls_externsheet, enc_externsheet16.
-  destruct (length (le 2 (N.of_nat (length xtis)) ++ flat_map enc_xti16 xtis) <? 2)%nat eqn:E2;
-    [apply Nat.ltb_lt in E2; rewrite app_length, le_length in E2; lia|].
-  rewrite u16_at_le2_0 by exact Hl. cbn [obind]. rewrite skipn_le.
-  rewrite <- (app_nil_r (flat_map enc_xti16 xtis)).
-  apply xti_chunks_enc; [exact Hwf|].
-  rewrite app_nil_r, app_length, le_length, enc_xti16_length. lia.
+  induction cuts as [|c t IH]; intros b; cbn [pieces concat]; [apply app_nil_r|].
+  rewrite IH. apply firstn_skipn.
 Qed.
 
-(* the globals loop keeps every Lbl record, in order, and concatenates the XTI arrays *)
+Lemma leading_conts_map : forall ps rest, leading_conts rest = [] ->
+  leading_conts (map (fun p => (0x003C, p)) ps ++ rest) = ps.
+Proof.
+  induction ps as [|p ps IH]; intros rest H; [exact H|].
+  cbn [map app leading_conts]. change (0x003C =? 0x003C) with true. cbn iota. rewrite (IH rest H). reflexivity.
+Qed.
+
+Lemma xls_externsheet_enc : forall xtis p0 ps, forallb wf_xti16 xtis = true ->
+  N.of_nat (length xtis) < 65536 -> p0 ++ concat ps = flat_map enc_xti16 xtis ->
+  xls_externsheet (le 2 (N.of_nat (length xtis)) ++ p0) ps = Ok xtis.
+Proof.
+  intros xtis p0 ps Hwf Hl Hp. unfold xls_externsheet.
+  destruct (length (le 2 (N.of_nat (length xtis)) ++ p0) <? 2)%nat eqn:E2;
+    [apply Nat.ltb_lt in E2; rewrite app_length, le_length in E2; lia|].
+  rewrite u16_at_le2_0 by exact Hl. cbn [obind]. rewrite skipn_le. cbv zeta. rewrite Hp.
+  rewrite <- (app_nil_r (flat_map enc_xti16 xtis)).
+  apply xti_chunks_enc; [exact Hwf|].
+  rewrite app_nil_r, enc_xti16_length. lia.
+Qed.
+
+(* the records of a description never start with a CONTINUE record *)
+Lemma enc_grecs_head : forall gs, forallb wf_grec gs = true -> leading_conts (flat_map enc_grec gs) = [].
+Proof.
+  intros [|g t] H; [reflexivity|]. cbn [forallb] in H. apply andb_prop in H. destruct H as [Hg _].
+  cbn [flat_map]. destruct g as [d|x cuts|l ctab path|ty data]; cbn [enc_grec app leading_conts].
+  - reflexivity.
+  - destruct (pieces cuts (flat_map enc_xti16 x)) as [|p0 ps] eqn:E; [destruct cuts; discriminate|].
+    cbn [app leading_conts]. reflexivity.
+  - reflexivity.
+  - cbn [wf_grec] in Hg. apply negb_true_iff in Hg. apply orb_false_iff in Hg. destruct Hg as [Hg _].
+    apply orb_false_iff in Hg. destruct Hg as [_ H3c].
+    rewrite H3c. reflexivity.
+Qed.
+
+Lemma globals_skip_conts : forall ps rest n0 x0,
+  xls_globals (map (fun p => (0x003C, p)) ps ++ rest) n0 x0 = xls_globals rest n0 x0.
+Proof.
+  induction ps as [|p ps IH]; intros rest n0 x0; [reflexivity|].
+  cbn [map app xls_globals]. change (0x003C =? 0x000A) with false. change (0x003C =? 0x0018) with false.
+  change (0x003C =? 0x0017) with false. cbn iota. apply IH.
+Qed.
+
+(* the globals loop keeps every Lbl record, in order, and concatenates the XTI arrays — of any length,
+   however they are split over the ExternSheet record and its CONTINUE records *)
 Theorem xls_globals_spec : forall gs n0 x0, forallb wf_grec gs = true ->
-  xls_globals (map enc_grec gs) n0 x0
+  xls_globals (flat_map enc_grec gs) n0 x0
   = do r <- spec_lbls (lbls_of gs); Ok (n0 ++ r, x0 ++ xtis_of gs).
 Proof.
   induction gs as [|g t IH]; intros n0 x0 Hwf.
   - cbn. rewrite !app_nil_r. reflexivity.
   - cbn [forallb] in Hwf. apply andb_prop in Hwf. destruct Hwf as [Hg Ht].
-    destruct g as [d|x|ty data]; cbn [map enc_grec xls_globals lbls_of xtis_of flat_map app wf_grec] in *.
-    + change (0x0018 =? 0x000A) with false. change (0x0018 =? 0x0018) with true. cbn iota.
+    destruct g as [d|x cuts|l ctab path|ty data]; cbn [flat_map enc_grec lbls_of xtis_of app wf_grec] in *.
+    + cbn [xls_globals].
+      change (0x0018 =? 0x000A) with false. change (0x0018 =? 0x0018) with true. cbn iota.
       rewrite xls_lbl_enc by exact Hg. cbn [spec_lbls].
       destruct (parse_defined_names (lb_rgce d)) as [f|c| |]; cbn [obind]; try reflexivity.
       rewrite IH by exact Ht. fold (lbls_of t). fold (xtis_of t).
       destruct (spec_lbls (lbls_of t)) as [r|c| |]; cbn [obind]; try reflexivity.
       rewrite <- app_assoc. reflexivity.
-    + change (0x0017 =? 0x000A) with false. change (0x0017 =? 0x0018) with false.
+    + apply andb_prop in Hg. destruct Hg as [Hx Hl]. apply N.ltb_lt in Hl.
+      pose proof (concat_pieces cuts (flat_map enc_xti16 x)) as Hc.
+      destruct (pieces cuts (flat_map enc_xti16 x)) as [|p0 ps] eqn:E; [destruct cuts; discriminate|].
+      cbn [concat] in Hc. cbn [app xls_globals].
+      change (0x0017 =? 0x000A) with false. change (0x0017 =? 0x0018) with false.
       change (0x0017 =? 0x0017) with true. cbn iota.
-      apply andb_prop in Hg. destruct Hg as [Hx Hl]. apply N.ltb_lt in Hl.
-      rewrite xls_externsheet_enc by assumption. cbn [obind].
+      rewrite leading_conts_map by (apply enc_grecs_head; exact Ht).
+      rewrite (xls_externsheet_enc x p0 ps Hx Hl Hc). cbn [obind].
+      rewrite globals_skip_conts.
       rewrite IH by exact Ht. fold (lbls_of t). fold (xtis_of t).
       destruct (spec_lbls (lbls_of t)) as [r|c| |]; cbn [obind]; try reflexivity.
       rewrite <- app_assoc. reflexivity.
-    + apply negb_true_iff in Hg. apply orb_false_iff in Hg. destruct Hg as [Hg H17].
-      apply orb_false_iff in Hg. destruct Hg as [H0A H18]. rewrite H0A, H18, H17.
+    + cbn [xls_globals]. change (0x01AE =? 0x000A) with false. change (0x01AE =? 0x0018) with false.
+      change (0x01AE =? 0x0017) with false. cbn iota.
+      rewrite IH by exact Ht. reflexivity.
+    + apply negb_true_iff in Hg. apply orb_false_iff in Hg. destruct Hg as [Hg _].
+      apply orb_false_iff in Hg. destruct Hg as [Hg H3c].
+      apply orb_false_iff in Hg. destruct Hg as [Hg H17].
+      apply orb_false_iff in Hg. destruct Hg as [H0A H18]. cbn [xls_globals]. rewrite H0A, H18, H17.
       rewrite IH by exact Ht. reflexivity.
 Qed.
 
@@ -422,18 +592,11 @@ Qed.
 Lemma map_quote_sheet : forall l, map quote_sheet_name l = map sheet_text l.
 Proof. intros l. apply map_ext. exact quote_sheet_name_spec. Qed.
 
-Lemma nthN_map : forall (A B : Type) (f : A -> B) (l : list A) i,
-  nthN (map f l) i = match nthN l i with Some x => Some (f x) | None => None end.
-Proof.
-  induction l as [|x l IH]; intros i; [reflexivity|]. cbn [map nthN].
-  destruct (i =? 0); [reflexivity|apply IH].
-Qed.
-
 (* what xls_read_names does on an encoded globals substream *)
 Lemma xls_read_names_unfold : forall show_f64 sheets gs names xtis, forallb wf_grec gs = true ->
-  xls_read_names show_f64 sheets (map enc_grec gs) = Ok (names, xtis) ->
+  xls_read_names show_f64 sheets (flat_map enc_grec gs) = Ok (names, xtis) ->
   exists raw, spec_lbls (lbls_of gs) = Ok raw /\ xtis = xtis_of gs /\
-    map_o (xls_final_name show_f64 (map quote_sheet_name sheets) (xtis_of gs) (map fst raw)) raw = Ok names.
+    map_o (xls_final_name show_f64 sheets (xtis_of gs) (map fst raw)) raw = Ok names.
 Proof.
   intros show_f64 sheets gs names xtis Hwf H. unfold xls_read_names in H.
   rewrite xls_globals_spec in H by exact Hwf.
@@ -443,7 +606,7 @@ Proof.
 Qed.
 
 Theorem defined_names_in_order_xls : forall show_f64 sheets gs names xtis, forallb wf_grec gs = true ->
-  xls_read_names show_f64 sheets (map enc_grec gs) = Ok (names, xtis) ->
+  xls_read_names show_f64 sheets (flat_map enc_grec gs) = Ok (names, xtis) ->
   map fst names = map lb_logical (lbls_of gs) /\ xtis = xtis_of gs.
 Proof.
   intros show_f64 sheets gs names xtis Hwf H.
@@ -469,16 +632,15 @@ Qed.
    commit "xls defined names other than a single 3-D reference …". *)
 Theorem defined_name_text_is_render_xls : forall show_f64 sheets gs names xtis i d e,
   forallb wf_grec gs = true ->
-  xls_read_names show_f64 sheets (map enc_grec gs) = Ok (names, xtis) ->
+  xls_read_names show_f64 sheets (flat_map enc_grec gs) = Ok (names, xtis) ->
   nth_error (lbls_of gs) i = Some d -> lb_rgce d = encode_xls e ->
   N.of_nat (length (encode_xls e)) < 65536 ->
-  let env := {| xe_sheets := map sheet_text sheets; xe_names := map lb_logical (lbls_of gs); xe_xtis := xtis_of gs; xe_base := None |} in
+  let env := {| xe_sheets := sheets; xe_names := map lb_logical (lbls_of gs); xe_xtis := xtis_of gs; xe_base := None |} in
   wf_xls env e = true ->
   nth_error names i = Some (lb_logical d, render_xls show_f64 env e).
 Proof.
   intros show_f64 sheets gs names xtis i d e Hwf H Hn Hr Hlen env Hwe.
   destruct (xls_read_names_unfold _ _ _ Hwf H) as (raw & Er & Ex & El).
-  rewrite map_quote_sheet in El.
   destruct (spec_lbls_nth _ _ Er Hn) as [f Hraw].
   destruct (@map_o_nth _ _ _ _ _ _ _ El Hraw) as [y [Ey Hy]]. rewrite Hy. f_equal.
   unfold xls_final_name in Ey. cbn [fst snd] in Ey.
@@ -486,8 +648,26 @@ Proof.
   fold env in Ey. rewrite (@rpn_correct_xls show_f64 env e Hwe Hlen) in Ey. injection Ey as <-. reflexivity.
 Qed.
 
+(* … through the supporting links of the file (the SupBook records): outside the known class K_EXTERN_BOOK —
+   the formula goes through XTIs of this workbook only — the text is the full spec's *)
+Theorem defined_name_text_through_links_xls : forall show_f64 sheets gs names xtis i d e,
+  forallb wf_grec gs = true ->
+  xls_read_names show_f64 sheets (flat_map enc_grec gs) = Ok (names, xtis) ->
+  nth_error (lbls_of gs) i = Some d -> lb_rgce d = encode_xls e ->
+  N.of_nat (length (encode_xls e)) < 65536 ->
+  let env := {| xe_sheets := sheets; xe_names := map lb_logical (lbls_of gs); xe_xtis := xtis_of gs; xe_base := None |} in
+  wf_xls env e = true ->
+  known_C14 (links_of gs) (xtis_of gs) e = None ->
+  nth_error names i = Some (lb_logical d, render_xls_links show_f64 (links_of gs) env e).
+Proof.
+  intros show_f64 sheets gs names xtis i d e Hwf H Hn Hr Hlen env Hwe Hk. unfold known_C14 in Hk.
+  destruct (known_extern (links_of gs) (xtis_of gs) e) eqn:E; [discriminate|].
+  rewrite render_xls_links_eq by exact E.
+  eapply defined_name_text_is_render_xls; eassumption.
+Qed.
+
 Theorem name_index_stable_xls : forall show_f64 sheets gs names xtis i d, forallb wf_grec gs = true ->
-  xls_read_names show_f64 sheets (map enc_grec gs) = Ok (names, xtis) ->
+  xls_read_names show_f64 sheets (flat_map enc_grec gs) = Ok (names, xtis) ->
   nth_error (lbls_of gs) i = Some d ->
   spec_name (map fst names) (N.of_nat i + 1) = lb_logical d.
 Proof.
@@ -499,7 +679,7 @@ Qed.
 
 Theorem ptgname_is_ith_record_xls : forall show_f64 sheets gs names xtis i d k,
   forallb wf_grec gs = true ->
-  xls_read_names show_f64 sheets (map enc_grec gs) = Ok (names, xtis) ->
+  xls_read_names show_f64 sheets (flat_map enc_grec gs) = Ok (names, xtis) ->
   nth_error (lbls_of gs) i = Some d -> N.of_nat i + 1 < 4294967296 ->
   xls_parse_formula show_f64 {| xe_sheets := sheets; xe_names := map fst names; xe_xtis := xtis; xe_base := None |}
     (frame_xls (encode_xls (EName k (N.of_nat i + 1)))) = Ok (lb_logical d).
@@ -517,31 +697,48 @@ Proof.
 Qed.
 
 (* a 3-D token's sheet is the itabFirst-th sheet of the ixti-th XTI of the file (all EXTERNSHEET
-   records concatenated) — not the ixti-th sheet.
-   The table the reader hands to the decoder holds the names as formula text writes them
-   ([sheet_text]: quoted when the grammar demands it; former observation G7). *)
+   records and their CONTINUE records concatenated) — not the ixti-th sheet — written as formula text
+   writes it ([sheet_text]: quoted when the grammar demands it); when itabLast names another sheet it
+   is the span First:Last ([span_text]; former observation G6: itabLast was never read). *)
 Theorem sheet3d_through_xti_xls : forall show_f64 sheets gs names xtis i x nm, forallb wf_grec gs = true ->
-  xls_read_names show_f64 sheets (map enc_grec gs) = Ok (names, xtis) ->
-  nth_error (xtis_of gs) i = Some x -> snd (fst x) < 32768 ->
-  spec_sheet_xls {| xe_sheets := map quote_sheet_name sheets; xe_names := nm; xe_xtis := xtis; xe_base := None |} (N.of_nat i)
-  = match nthN sheets (snd (fst x)) with Some s => sheet_text s | None => lit "#REF" end.
+  xls_read_names show_f64 sheets (flat_map enc_grec gs) = Ok (names, xtis) ->
+  nth_error (xtis_of gs) i = Some x -> snd (fst x) < 32768 -> snd x < 32768 ->
+  spec_sheet_xls {| xe_sheets := sheets; xe_names := nm; xe_xtis := xtis; xe_base := None |} (N.of_nat i)
+  = match nthN sheets (snd (fst x)), nthN sheets (snd x) with
+    | Some a, Some b => if snd (fst x) =? snd x then sheet_text a else span_text a b
+    | Some a, None => sheet_text a
+    | None, _ => lit "#REF"
+    end.
 Proof.
-  intros show_f64 sheets gs names xtis i x nm Hwf H Hn Hx.
+  intros show_f64 sheets gs names xtis i x nm Hwf H Hn Hx Hy.
   destruct (defined_names_in_order_xls _ _ _ Hwf H) as [_ Hxt]. subst xtis.
-  unfold spec_sheet_xls. cbn [xe_xtis xe_sheets]. rewrite nthN_nth_error, Hn.
-  destruct x as [[a b] c]. cbn [fst snd] in *. apply N.ltb_lt in Hx. rewrite Hx.
-  rewrite nthN_map. destruct (nthN sheets b); [rewrite quote_sheet_name_spec|]; reflexivity.
+  unfold spec_sheet_xls, sheet_at. cbn [xe_xtis xe_sheets]. rewrite nthN_nth_error, Hn.
+  destruct x as [[a b] c]. cbn [fst snd] in *. apply N.ltb_lt in Hx, Hy. rewrite Hx, Hy. reflexivity.
 Qed.
 
-(* xlsb: an XTI that points at a sheet of this workbook resolves to that sheet's formula text *)
+(* xlsb: an XTI that points at a sheet of this workbook resolves to that sheet's formula text; one that
+   spans two different sheets of the workbook to First:Last *)
 Theorem resolve_xti_sheet_text : forall sheets first s, first < 2147483648 ->
-  nthN sheets first = Some s -> resolve_xti sheets first = sheet_text s.
+  nthN sheets first = Some s -> resolve_xti sheets first first = sheet_text s.
 Proof.
   intros sheets first s Hlt Hs. unfold resolve_xti.
   assert (E1 : (first =? 4294967294) = false) by (apply N.eqb_neq; lia).
   assert (E2 : (first =? 4294967295) = false) by (apply N.eqb_neq; lia).
   assert (E3 : (first <? 2147483648) = true) by (apply N.ltb_lt; lia).
-  rewrite E1, E2, E3, Hs. apply quote_sheet_name_spec.
+  rewrite E1, E2, E3, Hs, N.eqb_refl. cbn [negb andb]. apply quote_sheet_name_spec.
+Qed.
+
+Theorem resolve_xti_span_text : forall sheets first last s t, first < 2147483648 -> last < 2147483648 ->
+  first <> last -> nthN sheets first = Some s -> nthN sheets last = Some t ->
+  resolve_xti sheets first last = span_text s t.
+Proof.
+  intros sheets first last s t Hf Hl Hne Hs Ht. unfold resolve_xti.
+  assert (E1 : (first =? 4294967294) = false) by (apply N.eqb_neq; lia).
+  assert (E2 : (first =? 4294967295) = false) by (apply N.eqb_neq; lia).
+  assert (E3 : (first <? 2147483648) = true) by (apply N.ltb_lt; lia).
+  assert (E4 : (last <? 2147483648) = true) by (apply N.ltb_lt; lia).
+  assert (E5 : (last =? first) = false) by (apply N.eqb_neq; congruence).
+  rewrite E1, E2, E3, Hs, E4, E5, Ht. cbn [negb andb]. apply quote_sheet_span_spec.
 Qed.
 
 (* ================================================================== formula ranges ==== *)
@@ -590,9 +787,11 @@ Definition ex_names : list name_rec :=
   [ {| nr_flags := 1 + 32; nr_chkey := 0; nr_itab := 0;          (* hidden + built-in *)
        nr_name := lit "_xlnm._FilterDatabase"; nr_rgce := [0x3b; 0; 0; 0;0;0;0; 9;0;0;0; 0;0; 2;0]; nr_tail := [0;0;0;0] |};
     {| nr_flags := 0; nr_chkey := 0; nr_itab := 4294967295;
-       nr_name := lit "Rate"; nr_rgce := [0x1e; 5; 0]; nr_tail := [0;0;0;0; 255;255;255;255] |};
-    {| nr_flags := 2 + 8; nr_chkey := 65; nr_itab := 4294967295;  (* function + macro, defined through Rate *)
-       nr_name := [26085; 128512]; nr_rgce := [0x23; 2;0;0;0; 0x1e; 2; 0; 0x05]; nr_tail := [] |} ].
+       (* defined through the name stored AFTER it (PtgName 3): a forward reference, as in every file
+          whose names Excel has sorted *)
+       nr_name := lit "Rate"; nr_rgce := [0x23; 3;0;0;0; 0x1e; 2; 0; 0x05]; nr_tail := [0;0;0;0; 255;255;255;255] |};
+    {| nr_flags := 2 + 8; nr_chkey := 65; nr_itab := 4294967295;  (* function + macro *)
+       nr_name := [26085; 128512]; nr_rgce := [0x1e; 5; 0]; nr_tail := [] |} ].
 
 Example xlsb_names_nonvacuous :
   forallb wf_name_rec ex_names = true /\ forallb wf_xti [(0, 1, 1); (0, 4294967294, 4294967294)] = true /\
@@ -600,41 +799,93 @@ Example xlsb_names_nonvacuous :
     ((0x0165, []) :: (0x016A, enc_externsheet [(0, 1, 1); (0, 4294967294, 4294967294)])
        :: map (fun d => (0x0027, enc_brtname d)) ex_names ++ [(0x009D, [])])
   = Ok ([lit "'O''Neil 2'"; lit "#ThisWorkbook"],
-        [(lit "_xlnm._FilterDatabase", lit "'O''Neil 2'!$A$1:$C$10"); (lit "Rate", lit "5"); ([26085; 128512], lit "Rate*2")]).
+        [(lit "_xlnm._FilterDatabase", lit "'O''Neil 2'!$A$1:$C$10"); (lit "Rate", [26085; 128512; 42; 50]); ([26085; 128512], lit "5")]).
 Proof. vm_compute. repeat split. Qed.
 
 Definition ex_globals : list grec :=
-  [ GExt [(0, 1, 1)];
+  [ GExt [(0, 1, 1)] [];
     GLbl {| lb_flags := 1 + 32; lb_chkey := 0; lb_itab := 1; lb_wide := false; lb_name := [13];   (* _FilterDatabase *)
-            lb_rgce := [0x3b; 0;0; 0;0; 9;0; 0;0; 2;0] |};
+            lb_rgce := [0x3b; 0;0; 0;0; 9;0; 0;0; 2;0]; lb_rgcb := [] |};
     GOther 0x0042 [176; 4];
     GLbl {| lb_flags := 0; lb_chkey := 0; lb_itab := 0; lb_wide := true; lb_name := [26085; 128512];
-            lb_rgce := [0x3a; 1;0; 4;0; 27;0] |};
-    GExt [(0, 0, 0)] ].
+            lb_rgce := [0x3a; 1;0; 4;0; 27;0]; lb_rgcb := [] |};
+    GExt [(0, 0, 0)] [] ].
 
 Example xls_names_nonvacuous :
   forallb wf_grec ex_globals = true /\
-  xls_read_names (fun _ => []) [lit "S1"; lit "My Sheet"] (map enc_grec ex_globals)
+  xls_read_names (fun _ => []) [lit "S1"; lit "My Sheet"] (flat_map enc_grec ex_globals)
   = Ok ([(lit "_xlnm._FilterDatabase", lit "'My Sheet'!$A$1:$C$10"); ([26085; 128512], lit "S1!$AB$5")], [(0, 1, 1); (0, 0, 0)]).
 Proof. vm_compute. repeat split. Qed.
 
 (* ---------- former known class K_XLS_NAME_FORMULA (repaired): a name defined by a constant, by an
    expression over another name stored AFTER it, and a single reference ---------- *)
 Example xls_name_formulas_nonvacuous :
-  let gs := [ GExt [(0, 0, 0)];
+  let gs := [ GExt [(0, 0, 0)] [];
               GLbl {| lb_flags := 0; lb_chkey := 0; lb_itab := 0; lb_wide := false; lb_name := lit "Seven";
-                      lb_rgce := encode_xls (EInt 7) |};
+                      lb_rgce := encode_xls (EInt 7); lb_rgcb := [1; 0; 9; 9] |};
               GLbl {| lb_flags := 1; lb_chkey := 0; lb_itab := 0; lb_wide := false; lb_name := lit "Twice";
-                      lb_rgce := encode_xls (EBin 5 (EName CVal 3) (EInt 2)) |};
+                      lb_rgce := encode_xls (EBin 5 (EName CVal 3) (EInt 2)); lb_rgcb := [] |};
               GLbl {| lb_flags := 0; lb_chkey := 0; lb_itab := 0; lb_wide := false; lb_name := lit "Rate";
-                      lb_rgce := encode_xls (ERef3d CRef 0 {| cr_row := 1; cr_col := 1; cr_row_rel := false; cr_col_rel := true |}) |};
+                      lb_rgce := encode_xls (ERef3d CRef 0 {| cr_row := 1; cr_col := 1; cr_row_rel := false; cr_col_rel := true |}); lb_rgcb := [] |};
               GLbl {| lb_flags := 0; lb_chkey := 0; lb_itab := 0; lb_wide := false; lb_name := lit "Odd";
-                      lb_rgce := [0x1e; 7; 0; 0x1e; 8; 0] |} ] in
+                      lb_rgce := [0x1e; 7; 0; 0x1e; 8; 0]; lb_rgcb := [] |} ] in
   forallb wf_grec gs = true /\
-  xls_read_names (fun _ => []) [lit "S"] (map enc_grec gs)
+  xls_read_names (fun _ => []) [lit "S"] (flat_map enc_grec gs)
   = Ok ([(lit "Seven", lit "7"); (lit "Twice", lit "Rate*2"); (lit "Rate", lit "S!B$2");
          (lit "Odd", lit "Unsupported ptg: 1e")], [(0, 0, 0)]).
 Proof. vm_compute. repeat split. Qed.
+
+(* ---------- KNOWN FINDING K_EXTERN_BOOK: a name defined by a reference into another workbook.  The file lists
+   three supporting links — the add-in functions, another workbook (sheets Data, Other Sheet), this workbook —
+   and three XTIs; the name goes through the XTI of the other workbook ---------- *)
+Definition A1abs : cref := {| cr_row := 0; cr_col := 0; cr_row_rel := false; cr_col_rel := false |}.
+Definition ex_ext_expr : expr := EBin 3 (ERef3d CRef 1 A1abs) (ERef3d CRef 0 A1abs).
+Definition ex_ext_globals : list grec :=
+  [ GSup SupAddin 1 [];
+    GSup (SupExt [lit "Data"; lit "Other Sheet"]) 2 (lit "other.xls");
+    GSup SupSelf 2 [];
+    GExt [(2, 1, 1); (1, 1, 1); (1, 0, 1)] [];
+    GLbl {| lb_flags := 0; lb_chkey := 0; lb_itab := 0; lb_wide := false; lb_name := lit "Their";
+            lb_rgce := encode_xls ex_ext_expr; lb_rgcb := [] |};
+    GLbl {| lb_flags := 0; lb_chkey := 0; lb_itab := 0; lb_wide := false; lb_name := lit "Ours";
+            lb_rgce := encode_xls (ERef3d CRef 0 A1abs); lb_rgcb := [] |} ].
+Definition ex_ext_env : xls_env :=
+  {| xe_sheets := [lit "S1"; lit "S2"]; xe_names := [lit "Their"; lit "Ours"];
+     xe_xtis := xtis_of ex_ext_globals; xe_base := None |}.
+
+Theorem refuted_extern_xls :
+  forallb wf_grec ex_ext_globals = true /\ wf_xls ex_ext_env ex_ext_expr = true /\
+  links_of ex_ext_globals = [SupAddin; SupExt [lit "Data"; lit "Other Sheet"]; SupSelf] /\
+  known_C14 (links_of ex_ext_globals) (xtis_of ex_ext_globals) ex_ext_expr = Some K_EXTERN_BOOK /\
+  known_C14 (links_of ex_ext_globals) (xtis_of ex_ext_globals) (ERef3d CRef 0 A1abs) = None /\
+  xls_read_names (fun _ => []) [lit "S1"; lit "S2"] (flat_map enc_grec ex_ext_globals)
+  = Ok ([(lit "Their", lit "S2!$A$1+S2!$A$1"); (lit "Ours", lit "S2!$A$1")], [(2, 1, 1); (1, 1, 1); (1, 0, 1)]) /\
+  render_xls_links (fun _ => []) (links_of ex_ext_globals) ex_ext_env ex_ext_expr = lit "'[1]Other Sheet'!$A$1+S2!$A$1" /\
+  render_xls_links (fun _ => []) (links_of ex_ext_globals) ex_ext_env (ERef3d CRef 2 A1abs) = lit "'[1]Data:Other Sheet'!$A$1" /\
+  lit "S2!$A$1+S2!$A$1" <> lit "'[1]Other Sheet'!$A$1+S2!$A$1".
+Proof. vm_compute. repeat split. discriminate. Qed.
+
+Theorem refuted_extern_xlsb :
+  let sheets := [lit "S1"; lit "S2"] in
+  let links := [SupAddin; SupExt [lit "Data"; lit "Other Sheet"]; SupSelf] in
+  let sups := [(SupAddin, []); (SupExt [lit "Data"; lit "Other Sheet"], enc_wide (lit "rId1")); (SupSelf, [])] in
+  let xtis := [(2, 1, 1); (1, 1, 1); (1, 0, 1)] in
+  let ds := [ {| nr_flags := 0; nr_chkey := 0; nr_itab := 4294967295; nr_name := lit "Their";
+                 nr_rgce := encode_xlsb ex_ext_expr; nr_tail := [] |};
+              {| nr_flags := 0; nr_chkey := 0; nr_itab := 4294967295; nr_name := lit "Ours";
+                 nr_rgce := encode_xlsb (ERef3d CRef 0 A1abs); nr_tail := [] |} ] in
+  let env := {| be_sheets := spec_extern_xlsb sheets xtis; be_names := [lit "Their"; lit "Ours"]; be_base := None |} in
+  let full := {| be_sheets := spec_extern_links_xlsb sheets links xtis; be_names := [lit "Their"; lit "Ours"]; be_base := None |} in
+  map fst sups = links /\ wf_xlsb env ex_ext_expr = true /\
+  known_C14 links xtis ex_ext_expr = Some K_EXTERN_BOOK /\ known_C14 links xtis (ERef3d CRef 0 A1abs) = None /\
+  xlsb_read_names (fun _ => []) sheets
+    ((0x0161, []) :: map sup_rec_xlsb sups ++ (0x016A, enc_externsheet xtis)
+       :: map (fun d => (0x0027, enc_brtname d)) ds ++ [(0x009D, [])])
+  = Ok ([lit "S2"; lit "S2"; lit "S1:S2"], [(lit "Their", lit "S2!$A$1+S2!$A$1"); (lit "Ours", lit "S2!$A$1")]) /\
+  spec_extern_links_xlsb sheets links xtis = [lit "S2"; lit "'[1]Other Sheet'"; lit "'[1]Data:Other Sheet'"] /\
+  render_xlsb (fun _ => []) full ex_ext_expr = lit "'[1]Other Sheet'!$A$1+S2!$A$1" /\
+  lit "S2!$A$1+S2!$A$1" <> lit "'[1]Other Sheet'!$A$1+S2!$A$1".
+Proof. vm_compute. repeat split. discriminate. Qed.
 
 (* ---------- PtgExp by itself: both decoders answer the empty text for it.  xls (since the commit "fix: xls
    cells of shared and array formulas …"): the sheet loop then replaces the text by the formula of the
